@@ -38,8 +38,17 @@ func NewHistogramReporter(h *Histogram) Reporter {
 			return err
 		}
 
-		for i, count := range h.Counts {
-			ratio := float64(count) / float64(h.Total)
+		counts := h.Counts
+		if len(counts) != len(h.Buckets) {
+			// No result was added yet.
+			counts = make([]uint64, len(h.Buckets))
+		}
+
+		for i, count := range counts {
+			var ratio float64
+			if h.Total > 0 {
+				ratio = float64(count) / float64(h.Total)
+			}
 			lo, hi := h.Buckets.Nth(i)
 			pad := strings.Repeat("#", int(ratio*75))
 			_, err = fmt.Fprintf(tw, "[%s,\t%s]\t%d\t%.2f%%\t%s\n", lo, hi, count, ratio*100, pad)
